@@ -45,6 +45,18 @@ CHECKS = {
             "round, under the pulled cell, only a leaf, fresh children, exactly when depth/threshold rule says so).",
             "Ambiguous rounds (readings of the rule disagree) are counted and skipped; c1*delta<=1/2 alphabets.",
             "stateless bounded-exhaustive script enumeration of the implementation with a growth-rule reference checker"),
+    "C07": ("model_checking", "3 C07",
+            "Every reward sequence over {0,1,-1}^T and the all-non-positive alphabet {0,-1,-0.5}^T and scripts within k deviations of base "
+            "scripts up to the end of the StroquOOL/GPO schedules; after every round get_last_point() is compared with the harness "
+            "ledger of (point, reward) pairs, recorded means, validation means and learner scores.",
+            "Queries are made on the live object; nothing is judged before the first validated candidate exists (finding D10 of C01).",
+            "stateless bounded-exhaustive script enumeration of the implementation against a (point, reward) ledger reference"),
+    "C08": ("model_checking", "3 C08",
+            "Every reward sequence in {0,1,-1}^T and scripts within k deviations over 100 rounds for SOO/StoSOO(k)/DOO(default and user delta) "
+            "x 4 partitions x depth caps; a model of the tree updated from recorded make_children calls judges every expansion and "
+            "hand-out against the optimistic rule (evaluated-once/k-times, sweep order, best-of-depth, monotone sweep, one expansion per DOO pull).",
+            "Sweep order = depth-major, creation order within depth; any arg-max accepted on ties.",
+            "stateless bounded-exhaustive script enumeration of the implementation in lock-step with a reference model of the optimistic sweep"),
 }
 
 LATER = {
